@@ -4,6 +4,8 @@
 //! that a TLA+ trace specification accepts or rejects.
 mod av;
 mod conc;
+mod sources;
+mod total;
 mod wire;
 mod wirecases;
 
@@ -85,6 +87,8 @@ fn main() {
     std::panic::set_hook(Box::new(|_| {}));
     match args.cmd.as_str() {
         "wire" => wirecases::run(&args),
+        "total" => total::run(&args),
+        "bomb-child" => total::bomb_child(&args),
         other => {
             eprintln!("vh: unknown command {other}");
             std::process::exit(2);
